@@ -17,6 +17,7 @@
 -/
 import JRV.Model.JsonClass
 import JRV.Model.ConfigCopy
+import JRV.Model.ConfigHistory
 import JRV.Lemmas.JsonClass
 
 set_option linter.unusedSimpArgs false
@@ -1333,5 +1334,337 @@ example : dump (exXH [("Pt", some 0)]) "_serialize" "_ignore" [] exShape = raise
     isDecimalObj, jcKey, bind, Except.bind, pure, Except.pure, raise]
 example : isKnown (exXH []) (.obj "Pt" [("x", .int 1)]) = false ∧ eqRaisesOf exEnvH (.obj "Pt" [("x", .int 1)]) = some "AttributeError" := by
   decide +kernel
+
+/- ---------- one Config object over time (JRV.Model.ConfigHistory) ---------- -/
+
+section history
+open JRV.ConfigHistory
+
+private theorem lookup_store (k k' : String) (v : Option Nat) : ∀ t : Table,
+    (store k v t).lookup k' = if k' == k then some v else t.lookup k'
+  | [] => by
+    by_cases h : k' == k <;> simp [store, List.lookup, h]
+  | (a, x) :: r => by
+    have ih := lookup_store k k' v r
+    by_cases ha : a == k
+    · by_cases h : k' == k
+      · have : k' == a := by simp_all
+        simp [store, ha, List.lookup, h, this]
+      · have : (k' == a) = false := by
+          cases hka : k' == a <;> simp_all
+        simp [store, ha, List.lookup, h, this]
+    · by_cases hka : k' == a
+      · have : (k' == k) = false := by
+          cases h : k' == k <;> simp_all
+        simp [store, ha, List.lookup, hka, this]
+      · simp [store, ha, List.lookup, hka, ih]
+
+private theorem lookup_erase (k k' : String) : ∀ t : Table,
+    (erase k t).lookup k' = if k' == k then Option.none else t.lookup k'
+  | [] => by simp [erase, List.lookup]
+  | (a, x) :: r => by
+    have ih := lookup_erase k k' r
+    by_cases ha : a == k
+    · by_cases h : k' == k
+      · simp [erase, ha, h, ih]
+      · have : (k' == a) = false := by
+          cases hka : k' == a <;> simp_all
+        simp [erase, ha, List.lookup, h, this, ih]
+    · by_cases hka : k' == a
+      · have : (k' == k) = false := by
+          cases h : k' == k <;> simp_all
+        simp [erase, ha, List.lookup, hka, this]
+      · simp [erase, ha, List.lookup, hka, ih]
+
+/-- The observation a statement makes depends on the state it is made in, and on nothing else: the `i`-th statement of
+    a history returns what it returns in the state the statements before it leave. -/
+theorem C20_history_reads_current_state (env : ClassEnv) (H : Nat → HandlerFn) : ∀ (pre : List Op) (s : State) (op : Op) (post : List Op),
+    (run env H s (pre ++ op :: post))[pre.length]? = some (observe env H (final s pre) op)
+  | [], s, op, post => by simp [run, final]
+  | p :: pre, s, op, post => by
+    have := C20_history_reads_current_state env H pre (mutate s p) op post
+    simpa [run, final] using this
+
+private theorem mutate_dump (s : State) (op : Op) (h : op.isDump = true) : mutate s op = s := by
+  cases op <;> simp_all [Op.isDump, mutate]
+
+/-- Dumps leave no trace: the object after a history is the object after its stores alone. -/
+theorem C20_history_dumps_inert : ∀ (ops : List Op) (s : State), final s ops = final s (ops.filter (fun o => !o.isDump))
+  | [], s => rfl
+  | op :: ops, s => by
+    have ih := C20_history_dumps_inert ops
+    by_cases h : op.isDump = true
+    · simp [final, List.filter, h, mutate_dump s op h] at ih ⊢
+      exact ih s
+    · simp at h
+      simp [final, List.filter, h] at ih ⊢
+      exact ih (mutate s op)
+
+theorem C20_history_handler_in_force (t : String) : ∀ (ops : List Op) (s : State),
+    (final s ops).cfg.handlers.lookup t = lastHandler t (s.cfg.handlers.lookup t) ops
+  | [], s => rfl
+  | op :: ops, s => by
+    have ih := C20_history_handler_in_force t ops (mutate s op)
+    simp only [final, List.foldl] at ih ⊢
+    rw [ih]
+    cases op <;> simp [mutate, lastHandler, lookup_store, lookup_erase]
+
+theorem C20_history_method_in_force : ∀ (ops : List Op) (s : State),
+    (final s ops).cfg.serializeMethod = lastMethod s.cfg.serializeMethod ops
+  | [], s => rfl
+  | op :: ops, s => by
+    have ih := C20_history_method_in_force ops (mutate s op)
+    simp only [final, List.foldl] at ih ⊢
+    rw [ih]
+    cases op <;> simp [mutate, lastMethod]
+
+
+
+theorem C20_history_ignore_attribute_in_force : ∀ (ops : List Op) (s : State),
+    (final s ops).cfg.ignoreAttribute = lastIgnoreAttr s.cfg.ignoreAttribute ops
+  | [], s => rfl
+  | op :: ops, s => by
+    have ih := C20_history_ignore_attribute_in_force ops (mutate s op)
+    simp only [final, List.foldl] at ih ⊢
+    rw [ih]
+    cases op <;> simp [mutate, lastIgnoreAttr]
+
+theorem C20_history_use_jsonclass_in_force : ∀ (ops : List Op) (s : State),
+    (final s ops).useJsonclass = lastUseJsonclass s.useJsonclass ops
+  | [], s => rfl
+  | op :: ops, s => by
+    have ih := C20_history_use_jsonclass_in_force ops (mutate s op)
+    simp only [final, List.foldl] at ih ⊢
+    rw [ih]
+    cases op <;> simp [mutate, lastUseJsonclass]
+
+private theorem any_keys_iff (f : String → Bool) : ∀ (l : Table),
+    l.any (fun h => f h.1) = true ↔ ∃ k, (l.lookup k).isSome = true ∧ f k = true
+  | [] => by simp [List.lookup]
+  | (a, x) :: r => by
+    have ih := any_keys_iff f r
+    constructor
+    · intro h
+      simp only [List.any_cons, Bool.or_eq_true] at h
+      rcases h with h | h
+      · exact ⟨a, by simp [List.lookup], h⟩
+      · obtain ⟨k, hk, hf⟩ := ih.mp h
+        refine ⟨k, ?_, hf⟩
+        by_cases hka : k == a <;> simp [List.lookup, hka, hk]
+    · rintro ⟨k, hk, hf⟩
+      simp only [List.any_cons, Bool.or_eq_true]
+      by_cases hka : k == a
+      · left
+        have : k = a := by simpa using hka
+        simpa [this] using hf
+      · right
+        apply ih.mpr
+        refine ⟨k, ?_, hf⟩
+        simpa [List.lookup, hka] using hk
+
+private theorem any_keys_congr (f : String → Bool) (l l' : Table) (h : ∀ k, l'.lookup k = l.lookup k) :
+    l'.any (fun e => f e.1) = l.any (fun e => f e.1) := by
+  have h1 := any_keys_iff f l
+  have h2 := any_keys_iff f l'
+  simp only [h] at h2
+  exact Bool.eq_iff_iff.mpr (h2.trans h1.symm)
+
+/-- The same context with another handler table. -/
+def withTable (X : DumpCtx) (t : Table) : DumpCtx := { X with cfg := { X.cfg with handlers := t } }
+
+section ext
+variable (X : DumpCtx) (t : Table) (ht : ∀ k, t.lookup k = X.cfg.handlers.lookup k) (sm ia : String) (ig : List PyVal)
+include ht
+
+private theorem extHF (v : PyVal) : handlerFor (withTable X t).cfg v = handlerFor X.cfg v := by
+  simp [handlerFor, withTable, ht]
+
+private theorem extK (v : PyVal) : isKnown (withTable X t) v = isKnown X v := by
+  cases v <;> simp only [isKnown]
+  exact any_keys_congr _ _ _ ht
+
+mutual
+  private theorem extV : ∀ (v : PyVal), dump (withTable X t) sm ia ig v = dump X sm ia ig v
+    | .none => by unfold dump; rw [extHF X t ht]; rfl
+    | .bool _ => by unfold dump; rw [extHF X t ht]; rfl
+    | .int _ => by unfold dump; rw [extHF X t ht]; rfl
+    | .float _ => by unfold dump; rw [extHF X t ht]; rfl
+    | .str _ => by unfold dump; rw [extHF X t ht]; rfl
+    | .list xs => by
+      have := extL xs
+      unfold dump; rw [extHF X t ht]; simp only [this]; rfl
+    | .tuple xs => by
+      have := extL xs
+      unfold dump; rw [extHF X t ht]; simp only [this]; rfl
+    | .set xs => by
+      have := extL xs
+      unfold dump; rw [extHF X t ht]; simp only [this]; rfl
+    | .frozenset xs => by
+      have := extL xs
+      unfold dump; rw [extHF X t ht]; simp only [this]; rfl
+    | .dict kvs => by
+      have := extK' kvs
+      unfold dump; rw [extHF X t ht]; simp only [this]; rfl
+    | .obj c fs => by
+      have hF := fun keep il => extF keep il fs
+      have hB : ∀ d jc, dumpBean (withTable X t) sm ia ig d c jc fs = dumpBean X sm ia ig d c jc fs := by
+        intro d jc
+        unfold dumpBean
+        simp only [hF]
+        rfl
+      unfold dump
+      rw [extHF X t ht]
+      simp only [hB]
+      rfl
+  private theorem extL : ∀ (xs : List PyVal), dumpList (withTable X t) sm ia ig xs = dumpList X sm ia ig xs
+    | [] => by unfold dumpList; rfl
+    | x :: xs => by
+      have h1 := extV x
+      have h2 := extL xs
+      unfold dumpList; simp only [h1, h2]
+  private theorem extK' : ∀ (xs : List (PyVal × PyVal)), dumpKVs (withTable X t) sm ia ig xs = dumpKVs X sm ia ig xs
+    | [] => by unfold dumpKVs; rfl
+    | (k, x) :: xs => by
+      have h1 := extV x
+      have h2 := extK' xs
+      unfold dumpKVs; simp only [h1, h2]
+  private theorem extF : ∀ (keep : List String) (il : List PyVal) (fs : List (String × PyVal)),
+      dumpFields (withTable X t) sm ia ig keep il fs = dumpFields X sm ia ig keep il fs
+    | _, _, [] => by unfold dumpFields; rfl
+    | keep, il, (n, x) :: rest => by
+      have h1 := extV x
+      have h2 := extF keep il rest
+      unfold dumpFields; rw [extK X t ht]; simp only [h1, h2]; rfl
+end
+end ext
+
+
+
+theorem C20_history_table_extensional (X : DumpCtx) (t : Table) (ht : ∀ k, t.lookup k = X.cfg.handlers.lookup k)
+    (sm ia : String) (ig : List PyVal) (v : PyVal) : dump (withTable X t) sm ia ig v = dump X sm ia ig v :=
+  extV X t ht sm ia ig v
+
+private theorem observe_congr (env : ClassEnv) (H : Nat → HandlerFn) (s s' : State) (op : Op)
+    (hm : s'.cfg.serializeMethod = s.cfg.serializeMethod) (hi : s'.cfg.ignoreAttribute = s.cfg.ignoreAttribute)
+    (hj : s'.useJsonclass = s.useJsonclass) (hh : ∀ t, s'.cfg.handlers.lookup t = s.cfg.handlers.lookup t) :
+    observe env H s' op = observe env H s op := by
+  have hX : ({ env := env, cfg := s'.cfg, H := H } : DumpCtx) = withTable { env := env, cfg := s.cfg, H := H } s'.cfg.handlers := by
+    simp only [withTable]
+    congr 1
+    cases hc : s'.cfg
+    simp_all
+  have key : ∀ sm ia ig v, dumpTop { env := env, cfg := s'.cfg, H := H } sm ia ig v
+      = dumpTop { env := env, cfg := s.cfg, H := H } sm ia ig v := by
+    intro sm ia ig v
+    unfold dumpTop
+    rw [hX]
+    simp only [withTable, hm, hi]
+    exact C20_history_table_extensional { env := env, cfg := s.cfg, H := H } s'.cfg.handlers hh _ _ _ v
+  cases op <;> simp [observe, key, hj]
+
+/-- **The second dump is the dump by a fresh Config with the final settings.**  Whatever was done with the object
+    before — dumps included — a dump made after the statements `pre` returns what the same call returns with ANY
+    configuration `s'` that has the settings the stores of `pre` leave (`last…` skip the dumps; the handler table
+    entry by entry, in whatever order it was filled).  `s'` is "a fresh Config with the final settings". -/
+theorem C20_history_dump_fresh (env : ClassEnv) (H : Nat → HandlerFn) (s s' : State) (pre post : List Op) (op : Op)
+    (hm : s'.cfg.serializeMethod = lastMethod s.cfg.serializeMethod pre)
+    (hi : s'.cfg.ignoreAttribute = lastIgnoreAttr s.cfg.ignoreAttribute pre)
+    (hj : s'.useJsonclass = lastUseJsonclass s.useJsonclass pre)
+    (hh : ∀ t, s'.cfg.handlers.lookup t = lastHandler t (s.cfg.handlers.lookup t) pre) :
+    (run env H s (pre ++ op :: post))[pre.length]? = some (observe env H s' op) := by
+  rw [C20_history_reads_current_state]
+  congr 1
+  apply (observe_congr env H (final s pre) s' op _ _ _ _).symm
+  · rw [hm, C20_history_method_in_force]
+  · rw [hi, C20_history_ignore_attribute_in_force]
+  · rw [hj, C20_history_use_jsonclass_in_force]
+  · intro t; rw [hh, C20_history_handler_in_force]
+
+private theorem lastHandler_append (t : String) : ∀ (a b : List Op) (d : Option (Option Nat)),
+    lastHandler t d (a ++ b) = lastHandler t (lastHandler t d a) b
+  | [], b, d => rfl
+  | op :: a, b, d => by simp only [List.cons_append, lastHandler]; exact lastHandler_append t a b _
+
+private theorem lastHandler_untouched (t : String) : ∀ (mid : List Op) (d : Option (Option Nat)),
+    mid.all (fun o => !o.touchesHandler t) = true → lastHandler t d mid = d
+  | [], d, _ => rfl
+  | op :: mid, d, h => by
+    simp only [List.all_cons, Bool.and_eq_true, Bool.not_eq_true'] at h
+    have ih := fun d => lastHandler_untouched t mid d (by simpa using h.2)
+    have h1 := h.1
+    cases op <;> simp_all [lastHandler, Op.touchesHandler]
+    all_goals (intro heq; simp_all)
+
+/-- The handler entry of `t` after `pre`, a store for `t`, and statements that do not touch the entry of `t`
+    (other stores, and any number of dumps). -/
+theorem C20_history_entry_after_store (s : State) (pre mid : List Op) (t : String) (e : Option Nat)
+    (hmid : mid.all (fun o => !o.touchesHandler t) = true) :
+    (final s (pre ++ .setHandler t e :: mid)).cfg.handlers.lookup t = some e := by
+  rw [C20_history_handler_in_force, lastHandler_append]
+  simp only [lastHandler, beq_self_eq_true, if_true]
+  exact lastHandler_untouched t mid _ hmid
+
+/-- **A handler registered after the object has already been used is the one applied.**  In
+    `…pre…; config.serialize_handlers[T] = h; …mid…; dump(v, sm, ia, ig, config)` with `type(v) is T` and no statement of
+    `mid` touching the entry of `T`, the dump IS the handler's outcome on `v` with the names and the ignore list of the
+    call — however many dumps `pre` and `mid` contain. -/
+theorem C20_history_late_handler_used (env : ClassEnv) (H : Nat → HandlerFn) (s : State) (pre mid post : List Op)
+    (t : String) (h : Nat) (sm ia : Option String) (ig : Option (List PyVal)) (v : PyVal)
+    (hv : v.typeName = t) (hmid : mid.all (fun o => !o.touchesHandler t) = true) :
+    (run env H s ((pre ++ .setHandler t (some h) :: mid) ++ .dump sm ia ig v :: post))[(pre ++ Op.setHandler t (some h) :: mid).length]?
+      = some (some (H h v (orStr sm (final s (pre ++ .setHandler t (some h) :: mid)).cfg.serializeMethod)
+                          (orStr ia (final s (pre ++ .setHandler t (some h) :: mid)).cfg.ignoreAttribute) (ig.getD []))) := by
+  rw [C20_history_reads_current_state]
+  have he := C20_history_entry_after_store s pre mid t (some h) hmid
+  simp only [observe, dumpTop]
+  congr 2
+  apply C20_handler_step
+  rw [C20_handlerFor_iff, hv]
+  exact he
+
+/-- … and at depth: after the same history a field value whose class is `T` (or a subclass of it) is of a known type —
+    it is not omitted (`C20_dumped_fields`), and is dumped with the handler (`C20_handler_everywhere`) — and after
+    `config.serialize_handlers.pop(T, None)` an instance of `T` held in a field is unknown again when no other entry covers it
+    (`C20_unsupported_omitted`): the set of known types is the set of keys at the time of the call. -/
+theorem C20_history_late_handler_known (env : ClassEnv) (H : Nat → HandlerFn) (s : State) (pre mid : List Op)
+    (t : String) (e : Option Nat) (fs : List (String × PyVal)) (hmid : mid.all (fun o => !o.touchesHandler t) = true) :
+    isKnown { env := env, cfg := (final s (pre ++ .setHandler t e :: mid)).cfg, H := H } (.obj t fs) = true :=
+  C20_handled_type_is_known _ t fs e (C20_history_entry_after_store s pre mid t e hmid)
+
+theorem C20_history_removed_handler_unknown (env : ClassEnv) (H : Nat → HandlerFn) (s : State) (pre : List Op)
+    (c : String) (fs : List (String × PyVal)) :
+    isKnown { env := env, cfg := (final s (pre ++ [.clearHandlers])).cfg, H := H } (.obj c fs) = false := by
+  have : (final s (pre ++ [.clearHandlers])).cfg.handlers = [] := by
+    simp [final, List.foldl_append, mutate]
+  simp [isKnown, this]
+
+/- Non-vacuity: the history of the seeded defect.  A bean with a `date` field is dumped (the field is omitted: no entry
+   for `date`), a handler for `date` is registered on the same object, the bean is dumped again: the field is there, with
+   the handler's output.  A `dump` that kept the types tuple of the first call would omit it again. -/
+private def exEnvHist : ClassEnv := [
+  ("Event", { module := "app", name := "Event", kind := .bean [("name", .str "launch"), ("when", .none)] }),
+  ("date", { module := "datetime", name := "date", ownSlots := some [], kind := .bean [] })]
+private def exEvent : PyVal := .obj "Event" [("name", .str "launch"), ("when", .obj "date" [])]
+private def exHistH : Nat → HandlerFn := fun _ _ _ _ _ => pure (.str "D:2024-02-29")
+private def exHistory : List Op :=
+  [.dump Option.none Option.none Option.none exEvent, .setHandler "date" (some 0), .dump Option.none Option.none Option.none exEvent,
+   .rpcDump (.list [exEvent]), .delHandler "date", .dump Option.none Option.none Option.none exEvent]
+example : run exEnvHist exHistH {} exHistory =
+    [some (.ok (.dict [(.str "__jsonclass__", .list [.str "app.Event", .list []]), (.str "name", .str "launch")])),
+     Option.none,
+     some (.ok (.dict [(.str "__jsonclass__", .list [.str "app.Event", .list []]), (.str "name", .str "launch"),
+                       (.str "when", .str "D:2024-02-29")])),
+     some (.ok (.list [.dict [(.str "__jsonclass__", .list [.str "app.Event", .list []]), (.str "name", .str "launch"),
+                       (.str "when", .str "D:2024-02-29")]])),
+     Option.none,
+     some (.ok (.dict [(.str "__jsonclass__", .list [.str "app.Event", .list []]), (.str "name", .str "launch")]))] := by
+  simp [run, observe, mutate, store, erase, exHistory, exEvent, exEnvHist, exHistH,
+    dumpTop, orStr, dump, dumpList, dumpBean, dumpFields, dumpKVs, handlerFor, typeName,
+    List.lookup, namesDistinct, emitName, getAttrD, findFields, slotsFinder, hasDict, ignoreEntryClass, pyEq, numEq, asInt?,
+    isKnown, isSubclass, valueIn, inUndescribed, isNonEmptyTuple, eqRaisesOf, isDecimalObj, jcKey, bind, Except.bind, pure, Except.pure]
+example : (final {} exHistory).cfg.handlers = [] ∧ lastHandler "date" Option.none (exHistory.take 3) = some (some 0) := by
+  decide +kernel
+
+end history
 
 end JRV.Props
